@@ -193,7 +193,11 @@ def compile_col_expr(
             # arrangement are specified, we manually add the descending and
             # nulls_last markers to the ordering.
             if arrange:
-                order_by = merge_desc_nulls_last(order_by, descending, nulls_last)
+                # unique names: the same column may occur twice among the sort keys
+                order_by = [
+                    key.alias(f"__order_key_{i}__")
+                    for i, key in enumerate(merge_desc_nulls_last(order_by, descending, nulls_last))
+                ]
             else:
                 order_by = None
             value = value.over(partition_by, order_by=order_by)
